@@ -503,7 +503,7 @@ Definition run_mime (x : xval) : xval :=
     | (L (N 2) (N seed) (N len)) bytes of the LCG x' = (1103515245 x + 12345) mod 2^31, byte = x' / 2^16 mod 256 *)
 Definition lcg_next (x : N) : N := (1103515245 * x + 12345) mod 2147483648.
 Definition lcg_bytes (seed len : N) : bytes :=
-  rev (snd (N.iter len (fun st => let x := lcg_next (fst st) in (x, ((x / 65536) mod 256) :: snd st)) (seed, []))).
+  rev_append (snd (N.iter len (fun st => let x := lcg_next (fst st) in (x, ((x / 65536) mod 256) :: snd st)) (seed, []))) [].
 Definition d_body (x : xval) : option bytes :=
   match x with
   | XL [XN 0; XB b] => Some b
